@@ -126,5 +126,7 @@ def run(check, ctx):
     # the native OCB loops over a concrete bijection (doubling is not XOR-linear, so no symbolic cipher here)
     from . import c_ocb
     c_ocb.ocb_tables(check, ctx)
+    from . import c_ghash
+    c_ghash.ghash_tables(check, ctx)
     check.undecided.append("the block primitives beyond the published vectors (AES/DES/CAST/Blowfish/ARC2/ARC4), Salsa20, GHASH/OCB "
                            "arithmetic in C; mode geometries outside the enumerated table")
